@@ -394,7 +394,7 @@ def singular_psd_finite(fn, target, noise, target_regular, noise_regular, singul
         w0 = np.asarray(call(target_regular, noise_regular, ref))
         reg = ~singular
         err = pu.rel_err(w[reg], w0[reg])
-        if err > 1e-7:
+        if err > (1e-3 if target.dtype == np.complex64 else 1e-7):
             return Fail(f'{fn}:regular-bin-affected:{where}', f'{fn}: regular bins change by rel. {err:.3g} when other '
                         f'bins are made singular')
 
@@ -640,6 +640,11 @@ def search(ctx):
             t, n = t * lvl, n * lvl
             ctx.count('search-singular-level:1e%d' % int(np.floor(np.log10(lvl))))
         t2, n2, sing, which, kind = make_singular(rng, t, n)
+        if kind == 'zero' and max(float(np.max(np.abs(t))), float(np.max(np.abs(n)))) < 1e6 \
+                and min(float(np.max(np.abs(t))), float(np.max(np.abs(n)))) > 1e-6 and rng.random() < 0.4:
+            # single-precision PSD matrices (complex64 STFT): a zero bin must still give a finite (zero) beamformer
+            t, n, t2, n2 = (x.astype(np.complex64) for x in (t, n, t2, n2))
+            ctx.count('search-singular-dtype:complex64')
         ref = int(rng.integers(D)) if (extra or rng.random() < 0.6) else None
         ctx.count(f'search-singular:{fn}:{which}:{kind}')
         ctx.count(f'search-singular-ref:{"explicit" if ref is not None else "estimated"}')
